@@ -6,7 +6,7 @@
    (Props.cyclic_links_diverge): acyclicity is used exactly once, to show that the regions explored
    through two different partners of a trait are disjoint. *)
 From Coq Require Import ZArith List Bool Arith Lia.
-From TV Require Import Common.Harness C20.ListSem C20.ListProofs C20.SliceProofs C20.Model C20.Termination C20.Spread.
+From TV Require Import Common.Harness C20.ListSem C20.ListProofs C20.SliceProofs C20.Model C20.Termination C20.Spread C20.Notes.
 Import ListNotations.
 
 (* ---------- reachability that does not ENTER blocked traits ---------- *)
@@ -214,7 +214,8 @@ Section Tree.
   Definition tpost (st st' : state) (x : node) : Prop :=
     overflow st' = false /\ same_frame st st' /\
     (forall y, region st x y -> y <> x -> val st' y = VL L') /\
-    (forall y, val st' y = val st y \/ (region st x y /\ y <> x)).
+    (forall y, val st' y = val st y \/ (region st x y /\ y <> x)) /\
+    (forall y, nc st' y = nc st y \/ (region st x y /\ nc st' y = S (nc st y))).
 
   Section Fold.
     (* the state when the handler of x starts walking its partners: x is locked (st2), tables are st's *)
@@ -239,7 +240,8 @@ Section Tree.
     Definition finv (done : list node) (s : state) : Prop :=
       overflow s = false /\ same_frame st2 s /\
       (forall q y, In q done -> ~ B2 q -> reachA st B2 q y -> val s y = VL L') /\
-      (forall y, val s y = val st y \/ exists q, In q done /\ ~ B2 q /\ reachA st B2 q y).
+      (forall y, val s y = val st y \/ exists q, In q done /\ ~ B2 q /\ reachA st B2 q y) /\
+      (forall y, nc s y = nc st2 y \/ exists q, In q done /\ ~ B2 q /\ reachA st B2 q y /\ nc s y = S (nc st2 y)).
 
     Lemma disjoint p q y :
       edge st x p -> edge st x q -> p <> q -> ~ B2 p -> ~ B2 q ->
@@ -272,7 +274,7 @@ Section Tree.
       - rewrite app_nil_r. exact Hinv.
       - replace (done ++ q :: r) with ((done ++ [q]) ++ r) by (rewrite <- app_assoc; reflexivity).
         apply IHr; [rewrite <- app_assoc; exact Hnd|intros q' Hq'; apply Hedges; rewrite <- app_assoc in Hq'; exact Hq'|].
-        destruct Hinv as (Hov & Fs & Hb & Hc).
+        destruct Hinv as (Hov & Fs & Hb & Hc & Hn).
         assert (edge st x q) as Heq by (apply Hedges; apply in_or_app; right; left; reflexivity).
         assert (~ In q done) as Hqnew.
         { intros Hin. apply NoDup_remove_2 in Hnd. apply Hnd. apply in_or_app. left. exact Hin. }
@@ -282,10 +284,12 @@ Section Tree.
         destruct (lockedb s p pn) eqn:Hl.
         + (* skipped: no new region *)
           assert (B2 (p, pn)) as Bq by (unfold B2; rewrite <- Hlk; exact Hl).
-          split; [exact Hov|]. split; [exact Fs|]. split.
+          split; [exact Hov|]. split; [exact Fs|]. split; [|split].
           * intros q y Hin Bq' R. apply in_app_or in Hin. destruct Hin as [Hin|[<-|[]]]; [eapply Hb; eassumption|contradiction].
           * intros y. destruct (Hc y) as [E|(q & Hin & Bq' & R)]; [left; exact E|].
             right. exists q. split; [apply in_or_app; left; exact Hin|split; assumption].
+          * intros y. destruct (Hn y) as [E|(q & Hin & Bq' & R & E)]; [left; exact E|].
+            right. exists q. split; [apply in_or_app; left; exact Hin|]. split; [exact Bq'|]. split; assumption.
         + assert (~ B2 (p, pn)) as Bq.
           { unfold B2. rewrite <- Hlk. unfold locked. cbn [fst snd]. rewrite Hl. discriminate. }
           set (q := (p, pn)) in *.
@@ -328,9 +332,10 @@ Section Tree.
           assert (forall s'', overflow s'' = false -> same_frame s' s'' ->
                     (forall y, region s' q y -> y <> q -> val s'' y = VL L') ->
                     (forall y, val s'' y = val s' y \/ (region s' q y /\ y <> q)) ->
+                    (forall y, nc s'' y = nc s' y \/ (region s' q y /\ nc s'' y = S (nc s' y))) ->
                     finv (done ++ [q]) s'') as Hclose.
-          { intros s'' O'' F'' Hb'' Hc''. split; [exact O''|].
-            split; [eapply same_frame_trans; [exact Fs|eapply same_frame_trans; eassumption]|]. split.
+          { intros s'' O'' F'' Hb'' Hc'' Hn''. split; [exact O''|].
+            split; [eapply same_frame_trans; [exact Fs|eapply same_frame_trans; eassumption]|]. split; [|split].
             - intros q0 y Hin Bq0 R. apply in_app_or in Hin. destruct Hin as [Hin|[<-|[]]].
               + (* an earlier region: untouched by this partner *)
                 assert (q0 <> q) as Hne by (intros ->; apply Hqnew; exact Hin).
@@ -351,11 +356,21 @@ Section Tree.
                 * right. exists q. split; [apply in_or_app; right; left; reflexivity|]. split; [exact Bq|constructor].
                 * rewrite E, Vo' by exact Hyq. destruct (Hc y) as [E'|(q0 & Hin & Bq0 & R0)]; [left; exact E'|].
                   right. exists q0. split; [apply in_or_app; left; exact Hin|split; assumption].
-              + right. exists q. split; [apply in_or_app; right; left; reflexivity|]. split; [exact Bq|apply Hreg1; exact R']. }
+              + right. exists q. split; [apply in_or_app; right; left; reflexivity|]. split; [exact Bq|apply Hreg1; exact R'].
+            - assert (forall y, nc s' y = nc s y) as Ns' by reflexivity.
+              intros y. destruct (Hn'' y) as [E|[R' E]]; rewrite Ns' in E.
+              + destruct (Hn y) as [E'|(q0 & Hin & Bq0 & R0 & E')]; [left; rewrite E; exact E'|].
+                right. exists q0. split; [apply in_or_app; left; exact Hin|]. split; [exact Bq0|]. split; [exact R0|].
+                rewrite E. exact E'.
+              + destruct (Hn y) as [E'|(q0 & Hin & Bq0 & R0 & E')].
+                * right. exists q. split; [apply in_or_app; right; left; reflexivity|]. split; [exact Bq|].
+                  split; [apply Hreg1; exact R'|]. rewrite E, E'. reflexivity.
+                * exfalso. assert (q0 <> q) as Hne by (intros ->; apply Hqnew; exact Hin).
+                  eapply (disjoint q0 q y); try eassumption; [apply Hedges; apply in_or_app; left; exact Hin|apply Hreg1; exact R']. }
           destruct oev as [ev'|].
           * (* the partner re-emits an event: propagate from it *)
             destruct (reemitted_event_replays L ev L' ev' Hidx Hap) as [Hidx' [oev' Hap']].
-            assert (tpost s' (forward f s' p pn ev') q) as (O'' & F'' & Hb'' & Hc'').
+            assert (tpost s' (forward f s' p pn ev') q) as (O'' & F'' & Hb'' & Hc'' & Hn'').
             { apply IH.
               - eapply otree_frame; [exact Fs'|]. eapply otree_frame; eassumption.
               - exact Hov.
@@ -368,7 +383,7 @@ Section Tree.
             apply Hclose; assumption.
           * (* no event: the list was not changed by the application, L' = L *)
             assert (L' = L) as EL by (eapply apply_event_silent; eassumption).
-            apply Hclose; [exact Hov|apply same_frame_refl| |intros y; left; reflexivity].
+            apply Hclose; [exact Hov|apply same_frame_refl| |intros y; left; reflexivity|intros y; left; reflexivity].
             intros y R Hyq. rewrite Vo' by exact Hyq. rewrite EL. apply HoldL. apply Hreg1. exact R.
     Qed.
   End Fold.
@@ -390,11 +405,17 @@ Section Tree2.
     assert (forall y, val st1 y = val st y) as V1 by reflexivity.
     assert (forall p m, partners st1 p m = partners st p m) as Hp1 by reflexivity.
     (* when the handler does nothing the region of x is x alone *)
+    assert (forall y, nc st1 y = nc st y \/ (y = (o, n) /\ nc st1 y = S (nc st y))) as N1.
+    { intros y. destruct (node_eq_dec y (o, n)) as [->|Hy]; [right; split; [reflexivity|apply nc_add_note_same]|].
+      left. apply nc_add_note_other. exact Hy. }
+    assert (forall y, nc st1 y = nc st y \/ (region st (o, n) y /\ nc st1 y = S (nc st y))) as N1r.
+    { intros y. destruct (N1 y) as [E|[-> E]]; [left; exact E|right; split; [constructor|exact E]]. }
     assert ((forall q, ~ edge st (o, n) q) -> tpost L' st st1 (o, n)) as Hquiet.
-    { intros noedge. split; [exact Hov|]. split; [exact F1|]. split.
+    { intros noedge. split; [exact Hov|]. split; [exact F1|]. split; [|split].
       - intros y R Hy. exfalso. destruct (reachA_first _ _ _ _ R) as [E|(q & He & _)]; [contradiction|].
         eapply noedge. exact He.
-      - intros y. left. reflexivity. }
+      - intros y. left. reflexivity.
+      - exact N1r. }
     destruct (has n (o_att_i (get_obj st1 o))) eqn:Hatt.
     2:{ apply Hquiet. intros q (ps & Hp & _). pose proof (ot_hooked _ T (o, n) ps Hp Hkind) as Ha.
         cbn [fst snd] in Ha. change (get_obj st1 o) with (get_obj st o) in Hatt. congruence. }
@@ -414,12 +435,12 @@ Section Tree2.
     assert (forall q, In q ([] ++ ps) -> edge st (o, n) q) as Hedges.
     { intros q Hin. exists ps. cbn [fst snd]. rewrite <- Hp1. auto. }
     assert (finv L' st st2 [] st2) as Hinit.
-    { split; [exact Hov|]. split; [apply same_frame_refl|]. split; [intros q y []|].
+    { split; [exact Hov|]. split; [apply same_frame_refl|]. split; [intros q y []|]. split; [|intros y; left; reflexivity].
       intros y. left. unfold st2. rewrite val_lock. apply V1. }
     pose proof (fold_tree L L' f st st2 (o, n) ev IH T T2 Hpart2 HPhi2 Hev Hkind (Hblk _ (or_intror eq_refl)) Hblk Hvals
-                          ps [] st2 Hnd Hedges Hinit) as (O4 & F4 & Hb & Hc).
+                          ps [] st2 Hnd Hedges Hinit) as (O4 & F4 & Hb & Hc & Hn).
     match goal with |- tpost _ _ (unlock ?s4 o n) _ => set (st4 := s4) in * end.
-    split; [exact O4|]. split; [eapply same_frame_trans; [exact F1|apply unlock_after_lock; assumption]|]. split.
+    split; [exact O4|]. split; [eapply same_frame_trans; [exact F1|apply unlock_after_lock; assumption]|]. split; [|split].
     - intros y R Hy. rewrite val_unlock.
       destruct (reachA_first _ _ _ _ R) as [E|(q & He & Bq & Rq)]; [contradiction|].
       assert (In q ([] ++ ps)) as Hin.
@@ -432,6 +453,18 @@ Section Tree2.
       + eapply reachA_trans; [eapply rA_step; [constructor|apply Hedges; exact Hin|intros Bz; apply Bq; apply Hblk; exact Bz]|].
         apply (reachA_weaken st (fun z => locked st2 z = true)); [exact Hblk|exact Rq].
       + destruct (reachA_end _ _ _ _ Rq) as [->|Hy]; [exact Hqx|]. intros ->. apply Hy. apply Hblk. right. reflexivity.
+    - assert (forall y, nc (unlock st4 o n) y = nc st4 y) as Nu by reflexivity.
+      assert (forall y, nc st2 y = nc st1 y) as N2 by reflexivity.
+      intros y. rewrite Nu. destruct (Hn y) as [E|(q & Hin & Bq & Rq & E)]; rewrite N2 in E.
+      + rewrite E. apply N1r.
+      + right.
+        assert (q <> (o, n)) as Hqx by (intros ->; apply Bq; apply Hblk; right; reflexivity).
+        assert (y <> (o, n)) as Hyx.
+        { destruct (reachA_end _ _ _ _ Rq) as [->|Hy]; [exact Hqx|]. intros ->. apply Hy. apply Hblk. right. reflexivity. }
+        split.
+        * eapply reachA_trans; [eapply rA_step; [constructor|apply Hedges; exact Hin|intros Bz; apply Bq; apply Hblk; exact Bz]|].
+          apply (reachA_weaken st (fun z => locked st2 z = true)); [exact Hblk|exact Rq].
+        * rewrite E. destruct (N1 y) as [E1|[E1 _]]; [rewrite E1; reflexivity|contradiction].
   Qed.
 End Tree2.
 
@@ -476,7 +509,7 @@ Proof.
     assert (no_locks s1) as NL1 by (eapply no_locks_frame; [exact F1|eapply no_locks_frame; eassumption]).
     destruct (replayable_replay_ok L mu Hmu) as [Hrep _]. destruct (Hrep _ _ Hm) as [oev Hap].
     pose proof (replayable_event_int_index L mu l' ev Hmu Hm) as Hidx.
-    assert (tpost l' s1 (forward f s1 o n ev) (o, n)) as (O' & F' & Hb & Hc).
+    assert (tpost l' s1 (forward f s1 o n ev) (o, n)) as (O' & F' & Hb & Hc & _).
     { apply (forward_spread L l').
       - eapply otree_frame; [exact F1|eapply otree_frame; eassumption].
       - exact Hov.
@@ -507,6 +540,48 @@ Proof.
     + intros y. destruct (node_eq_dec y (o, n)) as [->|Hy]; [right; constructor|left; rewrite val_set_other by exact Hy; apply V0].
   - (* the mutator raised: nothing happens *)
     split; [exact Hov|]. split; [exact F0|]. exists L. split; [intros y R; apply Hall; exact R|intros y; left; reflexivity].
+Qed.
+
+(* NOTIFICATIONS of one list mutation on a tree: the <name>_items handlers of a trait fire at most once, and only
+   for traits reachable from the mutated one (every other trait is not notified at all). *)
+Theorem mut_step_notes f st o n mu L :
+  otree st -> no_locks st -> overflow st = false -> (Phi st < f)%nat -> in_range st (o, n) ->
+  is_list_name n = true -> replayable_mut mu = true ->
+  (forall y, reach st (o, n) y -> val st y = VL L) ->
+  let st' := fst (step f st (Mut o n mu)) in
+  forall y, nc st' y = 0%nat \/ (reach st (o, n) y /\ nc st' y = 1%nat).
+Proof.
+  intros T NL Hov HPhi Hr Hk Hmu Hall st'.
+  set (st0 := clear_notes st).
+  assert (same_frame st st0) as F0 by apply clear_notes_frame.
+  assert (forall y, val st0 y = val st y) as V0 by reflexivity.
+  assert (forall y, nc st0 y = 0%nat) as Z0 by reflexivity.
+  pose proof (Hall (o, n) (reach_refl _ _)) as Vx. unfold val in Vx. cbn [fst snd] in Vx.
+  assert (get_val st0 o n = VL L) as Vx0 by exact Vx.
+  subst st'. unfold step. fold st0. rewrite Vx0.
+  destruct (mutate L mu) as [[l' [ev|]]|e] eqn:Hm; cbn [fst]; [|intros y; left; reflexivity|intros y; left; reflexivity].
+  set (s1 := set_val st0 o n (VL l')).
+  assert (same_frame st0 s1) as F1 by apply set_val_frame.
+  assert (forall y, nc s1 y = 0%nat) as Z1 by reflexivity.
+  assert (forall y, y <> (o, n) -> val s1 y = val st y) as V1o by (intros y Hy; unfold s1; rewrite val_set_other by exact Hy; apply V0).
+  assert (forall p m, partners s1 p m = partners st p m) as Hp1.
+  { intros. rewrite <- (partners_frame _ _ p m F1). reflexivity. }
+  assert (no_locks s1) as NL1 by (eapply no_locks_frame; [exact F1|eapply no_locks_frame; eassumption]).
+  destruct (replayable_replay_ok L mu Hmu) as [Hrep _]. destruct (Hrep _ _ Hm) as [oev Hap].
+  pose proof (replayable_event_int_index L mu l' ev Hmu Hm) as Hidx.
+  assert (tpost l' s1 (forward f s1 o n ev) (o, n)) as (_ & _ & _ & _ & Hn).
+  { apply (forward_spread L l').
+    - eapply otree_frame; [exact F1|eapply otree_frame; eassumption].
+    - exact Hov.
+    - apply (NL1 (o, n)).
+    - rewrite <- (Phi_frame _ _ F1), <- (Phi_frame _ _ F0). exact HPhi.
+    - eapply in_range_frame; eassumption.
+    - exact Hk.
+    - split; [exact Hidx|exists oev; exact Hap].
+    - intros y R Hy. rewrite V1o by exact Hy. apply Hall.
+      apply (reach_partners s1 st _ _ Hp1). eapply reachA_reach. exact R. }
+  intros y. destruct (Hn y) as [E|[Rg E]]; rewrite Z1 in E; [left; exact E|right].
+  split; [|exact E]. apply (reach_partners s1 st _ _ Hp1). eapply reachA_reach. exact Rg.
 Qed.
 
 (* ---------- histories of assignments AND list mutations on a mutual tree ---------- *)
